@@ -368,6 +368,10 @@ def search_exprs(ctx: Ctx) -> SearchResult:
 			for i in range(8):
 				g = X.Gen(rng, SEARCH_ENV, 'search')
 				t = g.pick_ty(2) if rng.random() < 0.8 else ('list', ('opt', X.INT))
+				if i == 0:
+					# one flat arithmetic chain per program (mixed operators of one precedence level, mixed int/bool/float operands)
+					fns.append(g.arith(rng.choice([X.FLOAT, X.INT]), 1).text)
+					continue
 				fns.append(g.expr(t, rng.randint(1, 4)).text)
 			src = ''.join(X.header(SEARCH_ENV).replace('def f(', f'def f{i}(') + f'\tv = {e}\n\n' for i, e in enumerate(fns))
 			calls = []
@@ -426,29 +430,30 @@ def search_typed_programs(ctx: Ctx) -> SearchResult:
 STATEMENTS: dict[str, str] = {
 	'dunder': 'every scalar binary-operator row (class, dunder, argument type) -> return type of the table generated from classes.py states CPython\'s result type (all operand values; 56 rows today, decided over the whole table)',
 	'dunder_unary': 'the __neg__/__pos__ rows state CPython\'s result type',
-	'step_agreement': 'on scalar operands one step of each_binary_operator gives CPython\'s type, or is bool &,| int (typed bool), or CPython rejects the operands: no other scalar disagreement exists',
-	'sound_statement / sound_counterexample': 'FULL statement (on Core the inferred type denotes the run-time value) is FALSE on the current code: -True is typed bool, CPython computes int',
-	'sound_counterexample_bool_or_int / _tuple_slice': 'two more concrete Core expressions on which the inferred type is not the run-time type (True | 2; t[0:1])',
-	'sound_partial': 'on the agreement subset (Core minus unary-on-bool, bool&|int, tuple slice): infer succeeds from every session state, leaves it untouched, and the inferred type denotes the value CPython computes (induction over expressions incl. stub calls and comprehensions)',
+	'step_agreement': 'on scalar operands one step of each_binary_operator gives CPython\'s type whenever CPython accepts the operands (no scalar disagreement left since 4f4a122)',
+	'sound_conf': 'THE property sentence on the model: on Core (incl. unary on bool, bool|int, tuple slices with literal bounds, stub calls, comprehensions) infer succeeds from every session state, leaves it untouched, and the inferred type denotes the value CPython computes (induction over expressions)',
 	'sound': 'same hypotheses + determined value + plain inferred type: infer Γ e = ok (typeOf v)',
 	'total': 'on Core inference never fails and the inferred type contains no Unknown (env without Unknown)',
-	'wellTyped_core': 'the agreement subset is contained in Core',
-	'session_independent_statement / _counterexample / _partial': 'the result must not depend on the session state: FALSE (second heterogeneous list literal raises Errors.Never); true on Core',
-	'template_statement / _counterexample / _partial': 'list[T].pop() is typed T: FALSE for T = int | None (typed int); true for the union-free shapes used by the streams',
+	'session_independent': 'for EVERY expression (also ill-typed ones): infer Γ e s = ((infer Γ e false).1, s) — no handler reads or writes the session state (false before 401dc97)',
+	'template': 'list[T].pop() is typed T for EVERY type T (Unions, nested generics): proved on the step-by-step port of TemplateManipulator by induction on T (false before e9f8d3f)',
+	'list_literal_counterexample': 'known finding list-literal-class-dedup: [[None], [1]] is typed list<list<int>> (outside Core)',
+	'dict_get_counterexample': 'known finding dict-get-missing-key: d.get("z") typed int, CPython returns None (outside Core)',
 }
 
 PARTIAL = {
 	'proved': 'int/float/bool/str, list[T], dict[K,V], tuple[...], optionals (as denotation of a Union), stub generics with their arguments (list/dict/str methods, len/abs/min/max/int/float/bool/str/list/range/reversed/enumerate), '
-		'literals, variables, unary/binary operators, comparisons, and/or/not, ternary, subscripts, slices, groups, list/dict comprehensions: soundness and totality on the model, by induction on expressions',
-	'correspondence_only': 'that the model IS the code: ProceduralResolver handlers, try_operation, TemplateManipulator path matching, on_list session state (stream infer); CPython semantics of the core (stream pytype)',
-	'search_only': 'scope lookup, inheritance walk, user classes and their attributes/methods, Enum, user generics, resolve_unknown laziness, statements (for/while/try), declarations',
-	'false_on_current_code': 'sound_statement, session_independent_statement, template_statement (each with a proved counterexample that the search replays on the real code)',
+		'literals, variables, unary/binary operators, comparisons, and/or/not, ternary, subscripts, slices, groups, list/dict comprehensions: soundness and totality on the model, by induction on expressions; '
+		'session independence for all expressions; template substitution of list.pop for all element types',
+	'correspondence_only': 'that the model IS the code: ProceduralResolver handlers, try_operation, TemplateManipulator path matching (stream infer, shared sessions = history); CPython semantics of the core (stream pytype)',
+	'search_only': 'scope lookup (incl. shadowing through nested classes), inheritance walk, user classes and their attributes/methods, Enum, user generics, resolve_unknown laziness, statements (for/while/try), declarations',
+	'still_false_on_the_code (known findings)': 'list-literal-class-dedup, dict-get-missing-key: each with a proved counterexample outside Core and a corpus witness',
 }
 
 ASSUMPTIONS = [
 	'stub classes have fewer than ten attributes per symbol (dotted-path prefix test of template.py = list prefix)',
 	'comprehension targets do not shadow parameters; a referenced unpacking target beyond the item arity is not generated (raw IndexError / Errors.Fatal depending on context)',
 	'at most one ill-typed atom per generated expression (error precedence between two faults inside a comprehension is not modelled)',
+	'generated domain of the search excludes: a list literal over a class AND its subclass (proposed/C03-union-of-subclasses-attribute.md), a ternary between differently-inferred containers of optionals, tuple slices with non-literal bounds',
 	'pytype domain: |int| < 2^50, finite floats of moderate magnitude, containers up to 64 items, ASCII strings (enforced at run time by a checker around every intermediate value; outside cases are discarded, not compared)',
 	'search oracle: only determined run-time types are compared; the value of an expression statement is not compared; type arguments of user generics are erased at run time and not compared; instances of a subclass are accepted for the declared base class',
 ]
